@@ -29,7 +29,7 @@ func init() {
 			"case folding is strings.EqualFold (Unicode simple folding), Go arrays and NaN are outside the stated domain",
 			"sampled input space",
 		},
-		quick: 400000, thorough: 8000000,
+		quick: 400000, thorough: 20000000,
 	}})
 }
 
@@ -38,6 +38,17 @@ func (p *c14) Init(w *lib.Worker) error { return nil }
 var c14Strings = []string{
 	"", "a", "ab", "abc", "é", "éé", "日本語", "é", "áb", "\xff", "a\xffb", "\xc3", "\xe6\x97", "K", "K", "ß", "SS", "İ", "i", "ǅ", "ǆ",
 	"x-1", "foo", "FOO", "Foo", "2020-01-31", "a8098c1a-f86e-11da-bd1a-00112444be1e", "a@b.co", " ", "\x00", "\U0001F600", "\U0001F600\U0001F600",
+}
+
+var c14Pieces = []string{"a", "b", "é", "日", "\xff", "\xc3", "\U0001F600", "́", " ", "\n", "0", "K", "K", "ß", "-", "."}
+
+// randString builds a string of 0-9 pieces (valid and invalid UTF-8 mixed).
+func randString(r *lib.Rand) string {
+	var b strings.Builder
+	for i, n := 0, r.Range(0, 9); i < n; i++ {
+		b.WriteString(c14Pieces[r.Intn(len(c14Pieces))])
+	}
+	return b.String()
 }
 
 func runeCount(s string) int64 {
@@ -176,6 +187,9 @@ func (p *c14) Run(w *lib.Worker, idx int, r *lib.Rand) lib.Case {
 		if r.P(0.3) {
 			s += c14Strings[r.Intn(len(c14Strings))]
 		}
+		if r.P(0.5) {
+			s = randString(r)
+		}
 		n := runeCount(s)
 		lim := n + int64(r.Range(-1, 1))
 		if r.P(0.2) {
@@ -195,6 +209,9 @@ func (p *c14) Run(w *lib.Worker, idx int, r *lib.Rand) lib.Case {
 			"^a ", " ^a", "b$\n", "^.$ ", "\tfoo", "foo", "foo ", " "}
 		pat := pats[r.Intn(len(pats))]
 		s := c14Strings[r.Intn(len(c14Strings))]
+		if r.P(0.5) {
+			s = randString(r)
+		}
 		render = fmt.Sprintf("Pattern(%q, %q)", s, pat)
 		re, err := regexp.Compile(pat)
 		want = err == nil && re.MatchString(s)
